@@ -53,6 +53,7 @@ type c03Plan struct {
 	fired  string // description of the event that failed ("" = none)
 	events []string
 	calls  []c03Call
+	cancel context.CancelFunc // cancels the request context of the running attempt
 }
 
 var c03P = &c03Plan{target: -1}
@@ -121,6 +122,14 @@ func c03VerifPoint(ctx context.Context, name string, index int) error {
 			}
 			return nil
 		}
+		// the request context is cancelled (client gone / deadline) right before COMMIT: database/sql
+		// refuses the COMMIT, and Rollback runs every closure with an already cancelled context
+		if c03P.event("commit-ctx") {
+			if c03P.cancel != nil {
+				c03P.cancel()
+			}
+			return nil
+		}
 	}
 	// every other point (tx.committed, tx.aftercommit, tx.done, tx.rollback, fs.*) is a crash point
 	// only: an error there cannot occur naturally and is not injected
@@ -177,8 +186,47 @@ func (s *c03Store) PutPart(ctx context.Context, tx database.Tx, id partstore.Par
 	return err
 }
 
+// c03BrokenReadCloser delivers a few bytes of a part and then a non-EOF error; Close succeeds or
+// fails independently of that.
+type c03BrokenReadCloser struct {
+	rc         io.ReadCloser
+	left       int
+	closeFails bool
+}
+
+func (b *c03BrokenReadCloser) Read(p []byte) (int, error) {
+	if b.left <= 0 {
+		return 0, c03ErrInjected
+	}
+	if len(p) > b.left {
+		p = p[:b.left]
+	}
+	n, err := b.rc.Read(p)
+	b.left -= n
+	if err == io.EOF {
+		return n, c03ErrInjected
+	}
+	return n, err
+}
+
+func (b *c03BrokenReadCloser) Close() error {
+	err := b.rc.Close()
+	if b.closeFails {
+		return c03ErrInjected
+	}
+	return err
+}
+
 func (s *c03Store) GetPart(ctx context.Context, tx database.Tx, id partstore.PartId) (io.ReadCloser, error) {
 	if c03P.event("ps.get") {
+		if c03P.mode >= 1 {
+			// the call succeeds, the stream breaks mid-way (mode 2: Close fails as well)
+			rc, err := s.PartStore.GetPart(ctx, tx, id)
+			if err != nil {
+				return nil, err
+			}
+			return &c03BrokenReadCloser{rc: rc, left: 2, closeFails: c03P.mode == 2}, nil
+		}
 		return nil, c03ErrInjected
 	}
 	rc, err := s.PartStore.GetPart(ctx, tx, id)
@@ -529,6 +577,125 @@ func c03Exec(c *s3hCase, cap *c03Capture, line string) (res string) {
 	return "res ok"
 }
 
+var c03ErrInner = errors.New("c03-inner-operation-failed")
+
+type c03Feedback struct {
+	nuids, netags int
+	vids          map[string]int
+	lastEtag      map[string]string
+	lastSize      map[string]int64
+}
+
+func c03SaveFeedback(c *s3hCase) c03Feedback {
+	fb := c03Feedback{nuids: len(c.uids), netags: len(c.allEtags), vids: map[string]int{}, lastEtag: map[string]string{}, lastSize: map[string]int64{}}
+	for k, v := range c.vids {
+		fb.vids[k] = v
+	}
+	for k, v := range c.lastEtag {
+		fb.lastEtag[k] = v
+	}
+	for k, v := range c.lastSize {
+		fb.lastSize[k] = v
+	}
+	return fb
+}
+
+func (fb c03Feedback) restore(c *s3hCase) {
+	c.uids, c.allEtags = c.uids[:fb.nuids], c.allEtags[:fb.netags]
+	c.vids, c.lastEtag, c.lastSize = fb.vids, fb.lastEtag, fb.lastSize
+}
+
+// c03Attempt runs one op line once: directly, or (nested) inside an enclosing
+// TransactionalStorage.WithTransaction the way the notification / outbox middlewares run every
+// mutation — the part stores then see a child transaction handle and everything is finalised by
+// the OUTER Commit. The request context is cancellable (fault kind commit-ctx). What the executor
+// learnt from a call that failed in the end (upload ids, version ids, ETags) is forgotten again.
+func c03Attempt(c *s3hCase, cap *c03Capture, base storage.Storage, line string, nested bool) (res string) {
+	fb := c03SaveFeedback(c)
+	ctx, cancel := context.WithCancel(context.Background())
+	c03P.mu.Lock()
+	c03P.cancel = cancel
+	c03P.mu.Unlock()
+	defer func() {
+		cancel()
+		c.ctx, c.st = context.Background(), base
+		if !strings.HasPrefix(res, "res ok") {
+			fb.restore(c)
+		}
+	}()
+	if !nested {
+		c.ctx, c.st = ctx, base
+		return c03Exec(c, cap, line)
+	}
+	ts, ok := base.(storage.TransactionalStorage)
+	if !ok {
+		return "res missing storage-is-not-transactional"
+	}
+	inner := "res missing"
+	err := func() (err error) {
+		defer func() {
+			if r := recover(); r != nil {
+				err = fmt.Errorf("panic: %v", r)
+			}
+		}()
+		return ts.WithTransaction(ctx, &sql.TxOptions{ReadOnly: false}, func(ctx context.Context, txSt storage.Storage) error {
+			c.ctx, c.st = ctx, txSt
+			inner = c03Exec(c, cap, line)
+			if !strings.HasPrefix(inner, "res ok") {
+				return c03ErrInner
+			}
+			return nil
+		})
+	}()
+	if err != nil && !errors.Is(err, c03ErrInner) {
+		k := errKind(err)
+		if k == "Other" {
+			return "res err Other " + verifx.HexS(err.Error())
+		}
+		return "res err " + k
+	}
+	return inner
+}
+
+// c03Bad counts the object versions of a snapshot that cannot be read in full.
+func c03Bad(lines []string) int {
+	n := 0
+	for _, l := range lines {
+		if strings.HasPrefix(l, "O ") && (strings.Contains(l, "READFAIL") || strings.Contains(l, " err:")) {
+			n++
+		}
+	}
+	return n
+}
+
+// c03HookRouting observes to which list of which controller the three registration methods
+// append, through a child handle: expected "PQa" (pre-commit hooks in order, then the after-commit
+// hook) and "r" (the rollback hook registered through the child runs with the root's Rollback).
+func c03HookRouting(db database.Database) string {
+	ctx := context.Background()
+	seq := ""
+	mark := func(m string) func(context.Context) error {
+		return func(context.Context) error { seq += m; return nil }
+	}
+	tx, err := db.BeginTx(ctx, &sql.TxOptions{})
+	if err != nil {
+		return "unknown"
+	}
+	tx.OnPreCommit(mark("P"))
+	tx.Child().OnAfterCommit(mark("a"))
+	tx.Child().OnPreCommit(mark("Q"))
+	_ = tx.Commit(ctx)
+	commitSeq := seq
+	seq = ""
+	tx2, err := db.BeginTx(ctx, &sql.TxOptions{})
+	if err != nil {
+		return "unknown"
+	}
+	tx2.Child().OnRollback(mark("r"))
+	_ = tx2.Rollback(ctx)
+	return commitSeq + "," + seq
+}
+
 // rollbackOrder observes the order in which TxController.Rollback runs its hooks.
 func c03RollbackOrder(db database.Database) string {
 	order := ""
@@ -587,6 +754,7 @@ func runC03(args []string) {
 	}
 
 	directed := c03Directed()
+	directed = append(directed, directed...) // second half: nested in an enclosing transaction
 	total := len(directed) + f.Cases
 	for k := 0; k < total; k++ {
 		if !f.Wants(k) {
@@ -601,12 +769,20 @@ func runC03(args []string) {
 			lastEtag: map[string]string{}, lastSize: map[string]int64{}, made: map[string]bool{}}
 		nm := &c03Names{ord: map[string]int{}}
 		out.Case(k, seed)
-		out.Line("cfg rollback=%s stores=2", c03RollbackOrder(stk.raw))
+		// every history runs either directly or nested in an enclosing transaction: the directed
+		// ones both ways, the generated ones alternately
+		nested := false
+		if k < len(directed) {
+			nested = k >= len(directed)/2
+		} else {
+			nested = (k-len(directed))%2 == 1
+		}
+		out.Line("cfg rollback=%s stores=2 nested=%d hooks=%s", c03RollbackOrder(stk.raw), b2i(nested), c03HookRouting(stk.raw))
 
 		runOp := func(line string) {
 			out.Line("%s", line)
 			pre := c03Snapshot(ctx, stk.st, nm)
-			out.Line("pre %s", c03Digest(pre))
+			out.Line("pre %s bad=%d", c03Digest(pre), c03Bad(pre))
 			out.Line("dir0 %s", stk.dirListing(nm))
 			// faulted attempts: event j fails, j = 0, 1, … until the operation no longer reaches event j
 			for j := 0; j < 64; j++ {
@@ -615,7 +791,7 @@ func runC03(args []string) {
 				reached := false
 				for mi := 0; mi < len(modes); mi++ {
 					c03P.arm(j, modes[mi])
-					res = c03Exec(c, cap, line)
+					res = c03Attempt(c, cap, stk.st, line, nested)
 					c03P.disarm()
 					fired, calls := c03P.fired, c03P.calls
 					if fired == "" {
@@ -625,12 +801,20 @@ func runC03(args []string) {
 					if fired == "ps.put" && mi == 0 {
 						modes = append(modes, 1) // also: the upload stream breaks half way
 					}
+					if fired == "ps.get" && mi == 0 {
+						modes = append(modes, 1, 2) // also: the source stream breaks mid-way, Close ok / failing
+					}
 					post := c03Snapshot(ctx, stk.st, nm)
 					ev := fired
-					if modes[mi] == 1 {
+					switch {
+					case fired == "ps.put" && modes[mi] == 1:
 						ev = "ps.put-midstream"
+					case fired == "ps.get" && modes[mi] == 1:
+						ev = "ps.get-midstream"
+					case fired == "ps.get" && modes[mi] == 2:
+						ev = "ps.get-midstream-closefail"
 					}
-					out.Line("f %d ev=%s res=%s post=%s", j, ev, strings.Join(strings.Fields(res)[1:], ":"), c03Digest(post))
+					out.Line("f %d ev=%s res=%s post=%s bad=%d", j, ev, strings.Join(strings.Fields(res)[1:], ":"), c03Digest(post), c03Bad(post))
 					out.Line("fc %s", c03Calls(nm, calls))
 					out.Line("fd %s", stk.dirListing(nm))
 					if c03Digest(post) != c03Digest(pre) {
